@@ -114,6 +114,7 @@ func VP_C03_Step() {
 	before := vpAllObjects()
 	zzvp.Assume(vpFsck() == "")
 	cur := vpHeadRef()
+	_, curExisted, _ := vpBranch(cur)
 	var r zzvp.Result
 	switch zzvp.Choose(12) {
 	case 0:
@@ -148,6 +149,9 @@ func VP_C03_Step() {
 	zzvp.Assert(r.Exit == 0 || r.Exit == 1, "the command ends with status 0 or 1 (no crash)")
 	zzvp.Assert(vpFsck() == "", "the repository is still connected: HEAD names a branch, branches hold existing commits, snapshots and staged blobs exist")
 	zzvp.Assert(vpObjectsKept(before), "no command deletes a stored object or changes its content")
-	_ = cur
+	if curExisted {
+		_, nowExists, _ := vpBranch(vpHeadRef())
+		zzvp.Assert(nowExists, "HEAD keeps naming a branch that holds a commit")
+	}
 	zzvp.Done()
 }
